@@ -15,7 +15,7 @@ RULE = (
     "messages); burst then silence; answers every TestRequest after a delay in [0, 2.2 hb] with the right / a wrong / a "
     "numerically lower / non-numeric / no TestReqID / (from the second TestRequest on) the id of the previous TestRequest, optionally sending an application message while its answer is under way or with one of its frames lost right before the answer; answers the first 1-3 TestRequests and is dead from then on; sends its own TestRequests "
     "(ids text, numbers, '0', '00', base64-like with '=' inside; optionally every second one preceded by a lost frame); reveals a gap and replays it slowly but steadily (one PossDup message every 0.3-0.8 hb)}; the scripted "
-    "peer answers the endpoint's ResendRequests with a GapFill; the scenario runs on the first or on the second connection of the same object; optional own outbound application traffic. Oracle (tolerances: "
+    "peer answers the endpoint's ResendRequests with a GapFill; the scenario runs on the first or on the second connection of the same object, optionally after the peer sent a ResendRequest (valid, beyond what was sent, or inverted) earlier in the session; optional own outbound application traffic. Oracle (tolerances: "
     "tick 1 s, TestReqID truncation 1 s): silent peer -> TestRequest within (hb-1, hb+1] s of the last inbound frame, "
     "disconnected no later than 3 hb + 3 s after it and not before 2 hb - 1 s after the TestRequest; peer with period <= hb "
     "- 1.5 s -> no TestRequest and no disconnect over the horizon; peer answering each TestRequest with the right id within 2 hb "
@@ -128,6 +128,12 @@ def run_scenario(acc, sc):
 
     writer.on_write = on_write
     try:
+        pre = sc.get("pre")
+        if pre:
+            # earlier in the session the peer sent a ResendRequest: a valid one, or one whose range is refused (beyond what was sent)
+            n_out = ep._session.next_num_out
+            feed("2", [(7, 1), (16, 0)] if pre == "rr-valid" else [(7, n_out + 5), (16, 0)] if pre == "rr-beyond" else [(7, 3), (16, 2)])
+            b.w.idle()
         b.w.advance(phase)
         t0 = loop.time()
         feed("D", [(11, "last-before-silence")])
@@ -299,8 +305,8 @@ def run_scenario(acc, sc):
             if p <= hb - 1.5 and (trs or t_disc is not None) and not (len(script) > 2 and script[2]):
                 bad("live/testrequest-to-live-peer", f"peer sends a TestRequest every {p:.2f} s yet TestRequest/disconnect happened (trs={len(trs)}, disc={t_disc})")
         nt = bool(trs)
-        acc.case((role, hb, round(phase, 3), tuple(script), sc.get("own_traffic", False)) if nt else None,
-                 cls=[f"script={kind}", f"role={role}", "hb<3" if hb < 3 else "hb>=3"] + (["second-connection"] if sc.get("second") else []) + (["lossy-peer"] if (kind == "answer" and len(script) > 4 and script[4]) or (kind == "peer-testreq" and len(script) > 2 and script[2]) else []) + (["testrequest-written"] if trs else []) + (["disconnected"] if t_disc is not None else []),
+        acc.case((role, hb, round(phase, 3), tuple(script), sc.get("own_traffic", False), sc.get("second", False), sc.get("pre")) if nt else None,
+                 cls=[f"script={kind}", f"role={role}", "hb<3" if hb < 3 else "hb>=3"] + (["second-connection"] if sc.get("second") else []) + ([f"pre={sc['pre']}"] if sc.get("pre") else []) + (["lossy-peer"] if (kind == "answer" and len(script) > 4 and script[4]) or (kind == "peer-testreq" and len(script) > 2 and script[2]) else []) + (["testrequest-written"] if trs else []) + (["disconnected"] if t_disc is not None else []),
                  sample={"role": role, "hb": hb, "phase": round(phase, 3), "script": list(script), "testrequests_at": [round(t - t0, 2) for t, _ in trs][:4],
                          "disconnected_at": None if t_disc is None else round(t_disc - t0, 2)} if nt and len(acc.samples) < 6 and kind in ("silent", "answer") else None)
     finally:
@@ -323,7 +329,8 @@ script = st.one_of(
     st.tuples(st.just("answer-then-die"), st.sampled_from([0.0, 0.1, 0.3]), st.integers(1, 3)),
 )
 scenario = st.fixed_dictionaries({"role": st.sampled_from(["acceptor", "initiator"]), "hb": hbs, "phase": st.floats(0, 0.999), "script": script,
-                                  "own_traffic": st.sampled_from([False, False, False, True]), "second": st.sampled_from([False, False, True])})
+                                  "own_traffic": st.sampled_from([False, False, False, True]), "second": st.sampled_from([False, False, True]),
+                                  "pre": st.sampled_from([None, None, None, "rr-valid", "rr-beyond", "rr-inverted"])})
 
 
 def hyp_shard(acc, n, seed):
@@ -341,6 +348,8 @@ def grid(acc, role):
                 run_scenario(acc, {"role": role, "hb": hb, "phase": phase, "script": sc, "own_traffic": False})
             for sc in [("silent",), ("answer", 0.9, "right"), ("periodic", 0.3, "0")]:
                 run_scenario(acc, {"role": role, "hb": hb, "phase": phase, "script": sc, "own_traffic": False, "second": True})
+                for pre in ("rr-valid", "rr-beyond", "rr-inverted"):
+                    run_scenario(acc, {"role": role, "hb": hb, "phase": phase, "script": sc, "own_traffic": False, "pre": pre})
     acc.klass("grid")
 
 
